@@ -173,7 +173,7 @@ class Sim:
 class FakeTimeMod:
     def __init__(self, sim):
         self.time = sim.time
-        self.monotonic = sim.time
+        self.monotonic = lambda: sim.time() - 777.0     # another epoch than time(): mixing the two clocks shows
         self.sleep = sim.sleep
 
 
